@@ -2,20 +2,22 @@
 # with_patch.sh <patch|--revert COMMIT> -- <command...> : apply to /repo, run, restore /repo
 # WITH_PATCH_REVERT=<commit> : reverse that commit first (a seeded change written against the tree before a later fix of the same lines)
 set -u
+REPO="${GWB_REPO:-/repo}"
+HERE="$(cd "$(dirname "$0")/.." && pwd)"
 if [ -n "${WITH_PATCH_REVERT:-}" ]; then
-  git -C /repo show "$WITH_PATCH_REVERT" | git -C /repo apply -R || exit 3
+  git -C "$REPO" show "$WITH_PATCH_REVERT" | git -C "$REPO" apply -R || exit 3
 fi
 if [ "$1" = "--revert" ]; then
-  git -C /repo show "$2" | git -C /repo apply -R || exit 3
+  git -C "$REPO" show "$2" | git -C "$REPO" apply -R || exit 3
   shift 2
 else
-  git -C /repo apply "$1" || { git -C /repo checkout -- .; exit 3; }
+  git -C "$REPO" apply "$1" || { git -C "$REPO" checkout -- .; exit 3; }
   shift
 fi
 shift   # the --
-export VERIF_EVIDENCE_DIR=/verif/work/evidence_patched
+export VERIF_EVIDENCE_DIR="$HERE/work/evidence_patched"
 "$@"
 rc=$?
-git -C /repo checkout -- .
-git -C /repo clean -fdq -- source include tests 2>/dev/null
+git -C "$REPO" checkout -- .
+git -C "$REPO" clean -fdq -- source include tests 2>/dev/null
 exit $rc
